@@ -78,6 +78,7 @@ REQUIRED_MONITORS = [
     "uncapped_size_exact",
     "uncapped_write_exact",
     "boundary_chi",
+    "default_chi",
     "monotone_in_chi",
     "compressed_finder_tree",
     "history_rechecks",
@@ -381,6 +382,27 @@ def stats_case(rep, case, register=True, tree=None):
                         if got[f] > want[f]:
                             out.append(("monotone_exact", detail(f, got[f], want[f]),
                                         f"{f}={got[f]} at chi={chi} exceeds the exact (untruncated) figure {want[f]}"))
+            # the DEFAULT cap (chi=None) of a compressed tree is documented as the square of the largest
+            # dimension of THIS network; scoring the tree first goes through the default objective, which is
+            # a process-wide shared object (get_score_fn is memoised) - what an earlier network did to it
+            # must not show in this network's estimates
+            if type(tree).__name__ == "ContractionTreeCompressed":
+                dflt = max(pristine.size_dict.values()) ** 2
+                try:
+                    tree.get_score()
+                    sd_ = tree.compressed_contract_stats(order=make_order(okind, oseed), compress_late=cl)
+                    se_ = tree.compressed_contract_stats(chi=dflt, order=make_order(okind, oseed), compress_late=cl)
+                except Exception as e:
+                    out.append(("stats_raises", {"order": {"kind": okind, "seed": oseed}, "compress_late": cl, "chi": None, "field": "raises", "got": repr(e), "want": None, "boundary": boundary},
+                                f"default-cap compressed_contract_stats raised {type(e).__name__}: {e}"))
+                    continue
+                rep.mon("default_chi")
+                for f in ("flops", "max_size", "write", "peak_size"):
+                    g, w_ = getattr(sd_, f), getattr(se_, f)
+                    if g != w_:
+                        out.append(("default_chi", {"order": {"kind": okind, "seed": oseed}, "compress_late": cl, "chi": None, "field": f, "got": g, "want": w_, "boundary": boundary},
+                                    f"{f}={g} with the default cap but {w_} with chi={dflt} = (largest dimension)**2 given explicitly"))
+                        break
     return out
 
 
